@@ -191,7 +191,9 @@ class NearJump(X86Instruction):
     """jmp imm32"""
 
     target = Operand("target", str)
-    syntax = Syntax(["jmp", " ", target])
+    # must lose against `jmp rm64` (priority 2, lower wins): `jmp rdx` is a
+    # jump through a register, not a jump to a label called rdx
+    syntax = Syntax(["jmp", " ", target], priority=3)
     tokens = [OpcodeToken, Imm32Token]
     patterns = {"opcode": 0xE9}
 
